@@ -421,6 +421,17 @@ func (f *fwd) checkToken(ri *reqInfo, rep *world.ClientReply) {
 		}
 	case message.Error:
 		got = tokRe.FindString(m.GetErrorMessage())
+	case *message.Supported:
+		// the answer to somebody's OPTIONS (e.g. a heartbeat of the proxy itself)
+		if ri.kind != "options" {
+			f.w.Violate("c02-token", "reply-mismatch(kind)", fmt.Sprintf("request %s was answered with SUPPORTED, the answer to an OPTIONS request somebody else sent", req))
+			return
+		}
+	case *message.Ready:
+		if ri.kind != "register" {
+			f.w.Violate("c02-token", "reply-mismatch(kind)", fmt.Sprintf("request %s was answered with READY", req))
+			return
+		}
 	}
 	if got == "" {
 		return
